@@ -1599,6 +1599,11 @@ func nameOnlyCondition(c ssa.Value, depth int) bool {
 			if sc := staticCallee(call); sc != nil && sc.Pkg != nil && sc.Pkg.Pkg.Path() == "strings" {
 				return true
 			}
+			// the verdict of a per-attribute helper of the package: its own branches are examined by the same rule
+			// (it belongs to the functions reachable from the builder)
+			if sc := staticCallee(call); sc != nil && fnPkgKey(sc) == "parser" {
+				return true
+			}
 		}
 	}
 	return false
